@@ -913,8 +913,13 @@ impl Prop for C17Prop {
             _ => None,
         }
     }
-    fn known(&self, req: &str, _m: &str, imp: &str) -> Option<String> {
+    fn known(&self, req: &str, model: &str, imp: &str) -> Option<String> {
         let t: Vec<&str> = req.split(' ').collect();
+        // the model reproduces the recorded defects: on `m17props` a case is a known finding only
+        // when the real commands did exactly what the model says (a difference is reported)
+        if t[0] == "m17props" && model != imp {
+            return None;
+        }
         if (t[0] == "e17props" || t[0] == "m17props") && !imp.starts_with("PANIC") {
             if let Some(m) = dec_vars(t[1]) {
                 return props_known_class(&m).map(|s| s.to_string());
